@@ -1,6 +1,8 @@
 package checks
 
 import (
+	"os"
+	"strings"
 	"testing"
 
 	"pgregory.net/rapid"
@@ -8,7 +10,7 @@ import (
 
 const c07Rule = "rapid-generated histories as in C01/C02/C04 (all primaries, small file sizes, GC cycles with budgets, close/reopen through snapshot, rescan and unusable snapshot); after every Flush, every completed GC cycle, every reopen and every Close an independent reader of the file formats (sharing no code with the repository) checks every clause of the invariant: " +
 	"live bucket table = own rescan of the index files (= bucket snapshot after Close); each bucket -> complete, non-deleted, correctly tagged record in an existing file at or after the header's first file; entries sorted, pairwise prefix-free, distinct locations; each entry -> complete non-deleted primary record of the recorded size whose digest has the bucket bits and the stored prefix; no live location in .free/.free.gc; primary first-file <= referenced files; " +
-	"non-trivial = some checked image had >=2 index files or >=2 primary files, >=1 deleted-marked record and >=1 bucket holding >=2 entries; distinct = distinct canonical JSON of the case"
+	"crash part: workloads of the C03 generator run under the crash recorder; drawn crash images (captured and torn) are restored, opened, and the same invariant is checked on the recovered store before and after a flush; non-trivial = some checked image had >=2 index files or >=2 primary files, >=1 deleted-marked record and >=1 bucket holding >=2 entries; distinct = distinct canonical JSON of the case"
 
 type fsckAgg struct {
 	runs      int
@@ -75,6 +77,31 @@ func TestC07(t *testing.T) {
 		}
 		return st, agg, v
 	}
+	if envReplay != "" && strings.Contains(string(readReplayRaw(envReplay).Case), "image_hex") {
+		var rp RecoveryReplay
+		readReplay(envReplay, &rp)
+		dir := newScratch("fsckrec")
+		defer os.RemoveAll(dir)
+		unhexImage(rp.Image).writeTo(dir)
+		s, err := openStore(dir, rp.Cfg)
+		if err != nil {
+			t.Skipf("image does not open: %v", err)
+		}
+		defer s.Close()
+		live := s.Index().VerifBuckets()
+		tbl := make([]uint64, len(live))
+		for i, p := range live {
+			tbl[i] = uint64(p)
+		}
+		_, clause, detail := fsck(fsckInput{Dir: dir, Cfg: rp.Cfg, Live: tbl})
+		ev.Record(rp, true)
+		if clause != "" {
+			v := viol("fsck|after-recovery@"+crashSite(rp)+"|"+clause, -1, "%s", detail)
+			ev.Report(v, rp)
+			t.Fatalf("replay: %v", v)
+		}
+		return
+	}
 	if envReplay != "" {
 		var c SeqCase
 		readReplay(envReplay, &c)
@@ -112,6 +139,71 @@ func TestC07(t *testing.T) {
 			rt.Fatalf("%v", v)
 		}
 	})
+	// Crash sub-campaign: "after recovery from any crash". Workloads run under
+	// the crash recorder of C03; drawn crash images are restored and opened,
+	// and the invariant is checked on the recovered store (right after the
+	// open, and again after a flush).
+	crashStates := 0
+	checkCrashState := func(c CrashCase, st crashState) *Violation {
+		dir := newScratch("fsckrec")
+		defer os.RemoveAll(dir)
+		st.Image.writeTo(dir)
+		s, err := openStore(dir, c.Seq.Cfg)
+		if err != nil {
+			return nil // whether the open succeeds is C03's subject
+		}
+		defer s.Close()
+		site := crashSite(RecoveryReplay{Point: st.Point, Torn: st.Torn})
+		for pass := 0; pass < 2; pass++ {
+			live := s.Index().VerifBuckets()
+			tbl := make([]uint64, len(live))
+			for i, p := range live {
+				tbl[i] = uint64(p)
+			}
+			_, clause, detail := fsck(fsckInput{Dir: dir, Cfg: c.Seq.Cfg, Live: tbl})
+			if clause != "" {
+				return viol("fsck|after-recovery@"+site+"|"+clause, -1, "%s", detail)
+			}
+			if err := s.Flush(); err != nil {
+				return nil
+			}
+		}
+		return nil
+	}
+	setRapidChecks(budget(1200, 2500))
+	rapid.Check(t, func(rt *rapid.T) {
+		if pastDeadline() {
+			ev.Skip()
+			return
+		}
+		c := genCrashCase(rt)
+		cr := runCrashWorkload(c)
+		if !cr.workloadOK || cr.total == 0 {
+			ev.Class("crash:workload-failed(foreign)", 1)
+			return
+		}
+		for j, p := range c.Picks {
+			var st crashState
+			if j%2 == 0 || len(cr.specs) == 0 {
+				st = cr.state(p % len(cr.rec.snaps))
+			} else {
+				spec := cr.specs[p%len(cr.specs)]
+				st = cr.rec.tornState(spec, (p/7919)%spec.count())
+			}
+			crashStates++
+			v := checkCrashState(c, st)
+			ev.Record(struct {
+				H string
+			}{st.Image.hash()}, !st.Quiet && cr.stats.removedFlushedSeen(), "crash:recovered-image")
+			if v != nil {
+				rp := buildReplay(c, st, cr.models)
+				if ev.Report(v, rp) {
+					rt.Fatalf("%v", v)
+				}
+			}
+		}
+	})
 	ev.Extra["fsck_runs"] = fsckRuns
+	ev.Extra["crash_images_checked"] = crashStates
 	ev.finish(t)
 }
